@@ -1,8 +1,6 @@
 From RsdnsModel Require Import Base Names Writer.
 From RsdnsModel.Spec Require Import NameText.
 From RsdnsModel.Proofs Require Import WriterSafe WriterLayout.
-From RsdnsModel Require Import Client Timed TimedApi.
-From RsdnsModel.Proofs Require Import TimedProofs TimedCalls.
 From RsdnsModel.Properties Require Import C11.
 Open Scope N_scope.
 Check (C11_no_oob_write : forall buf id qname qt qc rd opt,
@@ -26,20 +24,4 @@ Check (C11_clients_message : forall std id qname qt qc rd edns recv_len b,
   let opt := match edns with Some (ver, ups) => Some (ver, (N.min ups recv_len) mod 65536) | None => None end in
   let m := query_message id qname qt qc rd opt in
   b = be_bytes 2 (lenN m mod 65536) ++ m).
-Check (C11_refused_sends_nothing : forall std smol q cfg jit proc buf arrs srv wire ev r t,
-  client_call_timed std smol q cfg jit proc buf arrs srv = (wire, ev, r, t) ->
-  buf < 512 \/ valid_text (tq_name q) = false ->
-  wire = ([], None) /\ ev = [] /\ t = tq_start q /\ match r with Ok _ => False | _ => True end).
-Check (C11_wire_is_the_query : forall std smol q cfg jit proc buf arrs srv dgrams tcp ev r t,
-  client_call_timed std smol q cfg jit proc buf arrs srv = ((dgrams, tcp), ev, r, t) ->
-  512 <= buf -> valid_text (tq_name q) = true \/ dgrams <> [] \/ tcp <> None ->
-  let opt := match cc_edns cfg with Some (ver, ups) => Some (ver, (N.min ups buf) mod 65536) | None => None end in
-  let m := query_message (tq_id q) (tq_name q) (tq_type q) (tq_class q) (cc_rd cfg) opt in
-  Forall (fun d => snd d = m) dgrams /\
-  (forall b, tcp = Some b -> b = be_bytes 2 (lenN m mod 65536) ++ m) /\
-  (tcp <> None <-> In EvTcpExchange ev)).
-Check (C11_all_clients_same_over_time : forall smol smol' q cfg buf arrs srv,
-  qt_pos (cc_qt cfg) -> 0 < cc_lifetime cfg ->
-  client_call_timed true smol q cfg zero_jit zero_jit buf arrs srv =
-  client_call_timed false smol' q cfg zero_jit zero_jit buf arrs srv).
-Print Assumptions C11_no_oob_write. Print Assumptions C11_refuse_invalid. Print Assumptions C11_name_encoder_sound. Print Assumptions C11_std_async_same. Print Assumptions C11_example. Print Assumptions C11_exact_layout. Print Assumptions C11_clients_message. Print Assumptions C11_refused_sends_nothing. Print Assumptions C11_wire_is_the_query. Print Assumptions C11_all_clients_same_over_time.
+Print Assumptions C11_no_oob_write. Print Assumptions C11_refuse_invalid. Print Assumptions C11_name_encoder_sound. Print Assumptions C11_std_async_same. Print Assumptions C11_example. Print Assumptions C11_exact_layout. Print Assumptions C11_clients_message.
